@@ -123,7 +123,9 @@ Step(e) ==
       \* whatever else it breaks
       [w |-> w, bad |-> {<<p, "panic on a valid operation sequence (" \o e.ev \o "): " \o e.panic>> :
                            p \in {"C03"} \cup (IF e.ev \in {"register", "backfill"} THEN {"C04"}
-                                               ELSE IF e.ev \in {"clone", "take", "clone_from"} THEN {"C20"} ELSE {})}]
+                                               ELSE IF e.ev \in {"clone", "take", "clone_from"} THEN {"C20"} ELSE {})
+                                      \* (an operation that panics on a clone / a cloned original / a taken value: C20's "fully usable")
+                                      \cup (IF "o" \in DOMAIN e /\ Live(w, e.o) /\ w.objs[e.o].kin THEN {"C20"} ELSE {})}]
   ELSE IF e.err # "" THEN [w |-> w, bad |-> {<<"C03", "operation failed: " \o e.err>>}]
   ELSE IF ~(e.ev \in {"new", "from_slices", "held_op"}) /\ "o" \in DOMAIN e /\ e.skip = 0 /\ ~Live(w, e.o)
     THEN [w |-> w, bad |-> {<<"C03", "harness executed an operation on an object the model does not have">>}]
